@@ -309,6 +309,64 @@ theorem driver_tables_are_models {R V : Type} [Field R] [CharZero R] [Field V] [
   ⟨fixedTableG_eq e ofR sqrt m n M N dx z lam dxo shx shy f k l hk hl, table2G_eq e m n M N αy αx sy sx norm f k l hk hl,
    fpmTableG_eq e ofR sqrt m n M N dx z lam dxo shx shy mask f j i hj hi⟩
 
+section fpm2
+variable {R V : Type} [Field R] [Field V] [DecidableEq R]
+open Model.C03 Model.C05
+
+/-- transpose covariance of the whole mask path: transposing the field AND the mask and swapping the per-axis arguments (the two
+shift components; the mask grid `My × Mx` becomes `Mx × My`) transposes what `to_fpm_and_back` returns — every pupil and mask
+shape, any mask sampling and shift -/
+theorem fpm_transpose (e : R → V) (ofR : R → V) (sqrt : R → R) (m n My Mx : Nat) (dx efl lam fdx shx shy : R)
+    (mask : Nat → Nat → V) (f : Nat → Nat → V) (j i : Nat) :
+    toFpmAndBack e ofR sqrt n m Mx My dx efl lam fdx shy shx (fun l k => mask k l) (fun i j => f j i) i j
+      = toFpmAndBack e ofR sqrt m n My Mx dx efl lam fdx shx shy mask f j i := by
+  simp only [toFpmAndBack, maskAndBack]
+  rw [mul_comm (sqrt (axisAlpha (Num.ofInt (n : Int)) dx efl lam fdx)),
+    mul_comm (sqrt (axisAlpha (Num.ofInt (Mx : Int)) fdx efl lam dx))]
+  rw [← mdft2_transpose (fun t => e (-t)) My Mx m n _ _ _ _ _ _ j i]
+  congr 1
+  funext l k
+  rw [mdft2_transpose e m n My Mx _ _ _ _ _ f k l]
+
+/-- the output side of one axis: asking for a larger output window `N' ≥ N` (origin on origin) only adds samples around the
+old ones -/
+theorem mdft1_out_embed (e : R → V) (n N N' : Nat) (h : N ≤ N') (α s : R) (f : Nat → V) (l : Nat) :
+    mdft1 e n N' α s f (l + (N' / 2 - N / 2)) = mdft1 e n N α s f l := by
+  simp only [mdft1_eq_sum]
+  have hc : (coord N' (l + (N' / 2 - N / 2)) : R) = coord N l := by
+    rw [coord_eq, coord_eq]
+    obtain ⟨o, ho⟩ : ∃ o, N' / 2 = N / 2 + o := ⟨N' / 2 - N / 2, by omega⟩
+    rw [ho, Nat.add_sub_cancel_left]
+    push_cast; ring
+  rw [hc]
+
+/-- zero-pad embedding invariance of the whole mask path: embedding the pupil field in a larger `m' × n'` zero array with the
+origin on the origin (any parities, square or not) returns, on the window of the original samples, exactly what the original
+array returns: the forward constants do not depend on the pupil sample count, the return leg's depend on the mask grid only -/
+theorem fpm_pad_invariant (e : R → V) (ofR : R → V) (sqrt : R → R) (m n m' n' My Mx : Nat) (hm : m ≤ m') (hn : n ≤ n')
+    (hm0 : 0 < m) (hn0 : 0 < n) [CharZero R]
+    (dx efl lam fdx shx shy : R) (hdx : dx ≠ 0) (hz : efl ≠ 0) (hl : lam ≠ 0) (hd : fdx ≠ 0)
+    (mask : Nat → Nat → V) (f : Nat → Nat → V) (j i : Nat) :
+    toFpmAndBack e ofR sqrt m' n' My Mx dx efl lam fdx shx shy mask (embed m n m' n' f) (j + (m' / 2 - m / 2)) (i + (n' / 2 - n / 2))
+      = toFpmAndBack e ofR sqrt m n My Mx dx efl lam fdx shx shy mask f j i := by
+  have c : ∀ a : Nat, 0 < a → ((Num.ofInt (a : Int) : R)) ≠ 0 := by
+    intro a ha; simp only [ofInt_eq, Int.cast_natCast]; exact_mod_cast ha.ne'
+  simp only [toFpmAndBack, maskAndBack]
+  rw [axisAlpha_indep (Num.ofInt (m' : Int)) (Num.ofInt (m : Int)) dx efl lam fdx (c m' (by omega)) (c m hm0) hdx hz hl hd,
+      axisAlpha_indep (Num.ofInt (n' : Int)) (Num.ofInt (n : Int)) dx efl lam fdx (c n' (by omega)) (c n hn0) hdx hz hl hd]
+  simp only [mdft2_embed e m n m' n' My Mx hm hn]
+  simp only [mdft2]
+  rw [mdft1_out_embed _ My m m' hm]
+  congr 2
+  funext k
+  rw [mdft1_out_embed _ Mx n n' hn]
+
+/-- non-vacuity of `fpm_pad_invariant`: a 3 × 4 pupil embedded in 6 × 5 (offsets 2 and 0), exact rational optics -/
+example : (3 ≤ 6 ∧ 4 ≤ 5 ∧ 0 < 3 ∧ 0 < 4) ∧ ((1/2 : ℚ) ≠ 0 ∧ (100 : ℚ) ≠ 0 ∧ (25/2 : ℚ) ≠ 0) ∧ (6 / 2 - 3 / 2 = 2 ∧ 5 / 2 - 4 / 2 = 0) := by
+  refine ⟨by omega, by norm_num, by omega⟩
+
+end fpm2
+
 /-! ## non-vacuity (exact rational arithmetic): a band-complete 8-sample mask grid for a 6-sample pupil -/
 example : (1/2 : ℚ) * (25/2) / ((1/2) * 100) = 1 / 8 := by norm_num
 example : fpmBackShift0 (6 : ℚ) 5 8 8 (1/2) 100 (1/2) (25/2) 25 0 = 2 ∧ fpmFwdShift0 (6 : ℚ) 5 8 8 (1/2) 100 (1/2) (25/2) 25 0 = 2 := by
